@@ -12,6 +12,7 @@ PlaceT  == <<1, 3, 4, 5>>
 FlagsNone == {{}}
 FlagsG    == {{"G"}}
 FlagsAll  == {{}, {"G"}, {"P"}, {"G", "P"}}
+FlagsG2   == {{}, {"G", "P"}}
 FlagsGP   == {{}, {"G"}, {"G", "P"}}
 FlagsGPS  == {{}, {"G"}, {"G", "S"}, {"P"}}
 Both      == {TRUE, FALSE}
